@@ -45,11 +45,11 @@ for d in sorted(glob.glob(os.path.join(V, 'seeded', '*')), key=lambda p: (os.pat
 head = '| change | files | what it needs to manifest | ' + ' | '.join(i[1:] for i in ids) + ' |\n|---|---|---|' + '---|' * len(ids)
 legend = ("Columns 01…17 = `./check Cxx quick` with the change applied to /repo. **X** = exit 1 with a concrete failing input in the replay; "
           "x = exit 1 `no-failing-input-found` (a proof obligation or the tie broke, nothing concrete on that property's observation); "
-          "· = exit 0; ! = infrastructure error. %d of %d changes are caught by the check of the property they were written against; "
+          "· = exit 0; ! = infrastructure error; blank = that check was not run against this change (only the check of its own property was). %d of %d changes are caught by the check of the property they were written against; "
           "%s by the check of the property that owns the route they use (see the text below); %s by none - it no longer breaks its property on the "
           "current tree (see below). Off-diagonal marks are the shared `write`/`conv` ties doing their job: most changes break several properties, or at "
           "least the correspondence several properties rest on. Rows were computed with the machinery as it stood after each round's strengthening "
-          "(first two rounds: before the third round's additions)." % (conc, tot, ', '.join(elsewhere) or 'none', ', '.join(nowhere) or 'none'))
+          "(first two rounds: before the third round's additions; rounds 4 and 5: with the final machinery)." % (conc, tot, ', '.join(elsewhere) or 'none', ', '.join(nowhere) or 'none'))
 table = head + '\n' + '\n'.join(rows) + '\n\n' + legend + '\n'
 p = os.path.join(V, 'DESIGN.md')
 s = open(p).read()
